@@ -116,6 +116,56 @@ theorem fault_facts :
     F.rollbackRestoresSnapshot = true ∧ F.commitKeepsSnapshotOnError = true := by
   decide
 
+/-! ### vacuum under faults -/
+
+/-- **a vacuum that could not read a listed version deletes nothing**: if the keep pass lets the
+    deletions go ahead, every listed version that did not answer "no such object" is protected —
+    in particular none answered with an error -/
+theorem vacuum_keep_pass_error_or_complete (vs : List (Nat × Ans)) (l : List Nat)
+    (h : keepPass F vs = .kept l) :
+    (∀ p, p ∈ vs → p.2 ≠ .error) ∧ (∀ p, p ∈ vs → p.2 = .found → p.1 ∈ l) := by
+  have hF : F.vacuumSkipsUnreadableListed = true := by decide
+  induction vs generalizing l with
+  | nil => exact ⟨fun _ hp => (nomatch hp), fun _ hp => (nomatch hp)⟩
+  | cons p rest ih =>
+    obtain ⟨v, a⟩ := p
+    cases a with
+    | found =>
+      simp only [keepPass] at h
+      split at h
+      · rename_i l' hl'
+        cases h
+        obtain ⟨h1, h2⟩ := ih l' hl'
+        refine ⟨fun q hq => ?_, fun q hq hf => ?_⟩
+        · rcases List.mem_cons.mp hq with rfl | hq
+          · simp
+          · exact h1 q hq
+        · rcases List.mem_cons.mp hq with rfl | hq
+          · exact List.mem_cons_self
+          · exact List.mem_cons_of_mem _ (h2 q hq hf)
+      · cases h
+    | noSuchKey =>
+      simp only [keepPass] at h
+      obtain ⟨h1, h2⟩ := ih l h
+      refine ⟨fun q hq => ?_, fun q hq hf => ?_⟩
+      · rcases List.mem_cons.mp hq with rfl | hq
+        · simp
+        · exact h1 q hq
+      · rcases List.mem_cons.mp hq with rfl | hq
+        · cases hf
+        · exact h2 q hq hf
+    | error =>
+      simp [keepPass, hF] at h
+
+/-- the seeded variant "log and continue on any error": one failed GET and the vacuum goes ahead
+    without protecting version 7 -/
+theorem tolerant_keep_pass_drops_a_version :
+    let F0 : Facts := { F with vacuumSkipsUnreadableListed := false }
+    keepPass F0 [(7, .error), (8, .found)] = .kept [8] ∧ keepPass F [(7, .error), (8, .found)] = .error := by
+  decide
+
+theorem vacuum_fault_facts : F.vacuumSkipsUnreadableListed = true ∧ F.vacuumKeepsListedCurrent = true := by decide
+
 /-- with the tolerant variant ("try the next location on any error") a transient error on the
     first location of a retired version makes the version look vacuumed: the model shows it -/
 theorem tolerant_skip_hides_a_version :
